@@ -143,6 +143,9 @@ fn record_probes(stats: &mut Stats, tree: &Tree, inv: &Inv, pred: &model::Predic
     if !fired.write_failed.is_empty() {
         stats.probe("write-fault-between-read-and-write-of-a-target");
     }
+    if inv.debug != 0 {
+        stats.probe("debug-option-given (-a/-p: stdout not judged, everything else is)");
+    }
     if n >= 17 {
         stats.probe("17-or-more-inputs");
     }
@@ -389,7 +392,7 @@ pub fn run_case(env: &Env, case: &Case, oracle: &mut Oracle, mut fill: Option<Pl
                             texts.push(b.0.clone());
                         }
                         for t in texts.iter().filter(|t| t.windows(16).any(|w| w == b"((((((((((((((((")) {
-                            let alone = Inv { shape: Shape::Stdin { check: false }, stdin: Some(crate::util::Bytes(t.clone())), plan: vec![], env: vec![], ..inv.clone() };
+                            let alone = Inv { shape: Shape::Stdin { check: false }, stdin: Some(crate::util::Bytes(t.clone())), plan: vec![], env: vec![], debug: 0, ..inv.clone() };
                             match run::run_inv(env, &alone) {
                                 Ok(o) if o.signal.is_none() => {}
                                 _ => too_much = true,
